@@ -36,6 +36,7 @@ type randLog struct {
 	fail    int // fail the n-th next read (1-based); 0 = never
 	owner   *Party
 	zeroSMP bool // SMP-parameter sized reads return zero (a peer that chooses degenerate exponents)
+	shortWith func() [][]byte // C10: when set, 40-byte values are re-drawn until the D-H secret with one of these exponents has a leading zero byte
 	keep    bool // C08: keep every value handed out, the buffer it was written to, and the call site
 	draws   []draw
 }
@@ -90,6 +91,21 @@ func (l *randLog) Read(p []byte) (int, error) {
 		copy(p[n-5:], l.r.Bytes(5))
 	} else {
 		copy(p, l.r.Bytes(n))
+	}
+	if n == 40 && l.shortWith != nil {
+		if peers := l.shortWith(); len(peers) > 0 {
+		search:
+			for try := 0; try < 4000; try++ {
+				x := new(big.Int).SetBytes(p)
+				for _, y := range peers {
+					gy := new(big.Int).Exp(big.NewInt(2), new(big.Int).SetBytes(y), groupP)
+					if len(new(big.Int).Exp(gy, x, groupP).Bytes()) < 192 {
+						break search
+					}
+				}
+				copy(p, l.r.Bytes(n))
+			}
+		}
 	}
 	l.reads = append(l.reads, append([]byte{}, p...))
 	if l.keep {
